@@ -51,8 +51,8 @@ FMTS = ["png", "jpeg", "gif", "other", "unset"]
 NAMES = ["png", "jpg", "jpeg", "JPG", "gif", "noext", "dot", "multi", "cjk", "space", "meta", "mislead", "empty", "path", "ctrl"]
 TKS = ["var", "cond", "loop", "block", "image", "literal", "all"]
 MKS = ["para", "heading", "list", "task", "table", "code", "quote", "inline", "image", "math", "footnote", "html", "all"]
-SPELLS = ["asis", "abs", "dot", "updir", "qual", "order", "dirs", "extra"]
-SPELLS_R = ["abs", "extra", "qual", "updir", "dirs", "dot", "order", "asis"]      # rotation order of the narrowed plans
+SPELLS = ["asis", "abs", "dot", "updir", "qual", "ovr", "xmlser", "min", "order", "dirs", "extra"]
+SPELLS_R = ["abs", "xmlser", "extra", "min", "qual", "updir", "ovr", "dirs", "dot", "order", "asis"]      # rotation order of the narrowed plans
 STYLE_EDS = ["name", "run", "para", "strip", "rebase", "readd"]
 PAGES = ["SetPageSettings", "SetPageSize", "SetCustomPageSize", "SetPageOrientation", "SetPageMargins",
          "SetHeaderFooterDistance", "SetGutterWidth", "SetDocGrid", "ClearDocGrid", "GetPageSettings"]
